@@ -556,7 +556,10 @@ def _run_write(run, p, tgt, plc, reqs, forced_status, want_readback):
         for r, e in succeeded:
             names.append(render(r))
         uniq = list(dict.fromkeys(names))
+        room0 = getattr(tgt, "room_refused", 0)
         ok, back = call(run, lambda: plc.read(*uniq), "readback")
+        allowance = getattr(tgt, "room_refused", 0) - room0   # members the target itself refused for lack of room
+        excused = set()
         if ok:
             back = back if isinstance(back, list) else [back]
             byname = dict(zip(uniq, back))
@@ -565,6 +568,11 @@ def _run_write(run, p, tgt, plc, reqs, forced_status, want_readback):
                 try:
                     want, _ = expected_read(p, model, r)
                 except LocateError:
+                    continue
+                if tag is not None and not tag and tag.error and "Insufficient Packet Space" in tag.error and (render(r) in excused or allowance > 0):
+                    if render(r) not in excused:     # several written requests may share one read-back request
+                        excused.add(render(r))
+                        allowance -= 1
                     continue
                 if tag is None or not tag:
                     run.add("C02", f"readback.falsy.{errclass(tag.error if tag is not None else None)}", f"{render(r)}: {tag!r}"[:400])
